@@ -15,6 +15,7 @@ import multiprocessing as mp
 import os
 import random
 import subprocess
+import time
 import sys
 from concurrent.futures import ThreadPoolExecutor
 
@@ -401,16 +402,18 @@ def run_history(job):
         it = dict(item)
         if it.get("inject") and it["inject"].get("at") is None:
             # count the calls of this assembly first (a plain valid/invalid assembly of the same sources), then interrupt the second one
+            tc = time.time()
             c = assemble_item({"files": it["files"], "fs": it.get("fs"), "inject": {"at": -1, "kind": "count"}})
             st = state_now()
             ce = {"kind": "count-run", "outcome": c["outcome"], "state": st}
-            if c["outcome"] == "hang" and st != [0, 0, 0]:        # only the real watchdog can cut a counting run (asynchronously)
+            if (c["outcome"] == "hang" or time.time() - tc >= 0.9 * 120) and st != [0, 0, 0]:        # only the real watchdog can cut a counting run (asynchronously)
                 ce["async_dirty"] = True
                 impl.reset_global_state()
             log.append(ce)
             n = max(1, c.get("calls", 1))
             it["inject"] = {"kind": item["inject"]["kind"], "at": 1 + int(item["inject"]["frac"] * (n - 1))}
         r = None
+        t0 = time.time()
         try:
             r = assemble_item(it)
             oc = r["outcome"]
@@ -418,8 +421,14 @@ def run_history(job):
             oc = "escaped:" + type(ex).__name__
         st = state_now()
         entry = {"kind": item["kind"], "outcome": oc, "state": st, "leftover": leftover_now()}
+        if isinstance(r, dict) and r.get("crash"):
+            entry["crash"] = {"exc": r["crash"].get("exc"), "frame": r["crash"].get("frame")}
         # the REAL watchdog (SIGALRM) cut this assembly, on purpose or because the machine is loaded: an injected Hang has no pdpy11 frame
-        real_alarm = item.get("watchdog") or (oc == "hang" and isinstance(r, dict) and (r.get("crash") or {}).get("frame") not in (None, "?"))
+        # (or the run lasted as long as the watchdog allows: at a deep recursion the signal handler itself may die with RecursionError,
+        #  which then looks like an ordinary crash but was raised asynchronously)
+        limit = item.get("watchdog") or (120 if it.get("inject") else impl.WATCHDOG_S)
+        real_alarm = item.get("watchdog") or time.time() - t0 >= 0.9 * limit or \
+            (oc == "hang" and isinstance(r, dict) and (r.get("crash") or {}).get("frame") not in (None, "?"))
         if real_alarm and st != [0, 0, 0]:
             # an asynchronous SIGALRM landed inside __enter__/__exit__: outside the model and the property; noted and repaired
             entry["async_dirty"] = True
